@@ -2434,6 +2434,39 @@ fn emit_strip(out: &mut Out, rng: &mut Rng, vals: &[u64], matrix: bool, subset: 
     out.case("strip", term, format!("{{\"values\":{:?},\"matrix\":{},\"subset\":{},\"eq\":{},\"answers\":{}}}", &vals[..std::cmp::min(vals.len(), 40)], matrix, subset, eq, ans), !vals.is_empty());
 }
 
+// a SparseVector file whose embedded high bitvector carries only the select / select_zero supports of `subset`
+fn emit_strip_sparse(out: &mut Out, rng: &mut Rng, it: &SpItem, subset: u64) {
+    let native = serialize_elems_of(&it.g.v);
+    // [len] ++ bitvector ++ intvector: find where the bitvector ends by loading it
+    let body = from_elems(&native[1..]);
+    let mut reader = CountingReader::new(&body, 0);
+    let high = match catch(|| BitVector::load(&mut reader)) {
+        Res::Ok(Ok(x)) => x,
+        _ => {
+            out.case("crash", format!("CCrash 0 [] 0"), "{\"what\":\"the embedded bitvector of a native SparseVector file did not load\"}".to_string(), true);
+            return;
+        }
+    };
+    let high_end = 1 + reader.pos / 8;
+    let mut stripped = BitVector::from(RawVector::from(high));
+    enable_subset(&mut stripped, subset & 6);
+    let mut elems: Vec<u64> = vec![native[0]];
+    elems.extend_from_slice(&serialize_elems(&stripped));
+    elems.extend_from_slice(&native[high_end..]);
+    let extra: Vec<u8> = (0..rng.below(10)).map(|_| rng.below(256) as u8).collect();
+    let mut stream = from_elems(&elems);
+    stream.extend_from_slice(&extra);
+    let mut reader = CountingReader::new(&stream, *rng.pick(&[0usize, 0, 3, 8]));
+    let (eq, ans) = match catch(|| SparseVector::load(&mut reader).map(|x| (x == it.g.v, catch(|| (it.g.answers)(&x, &it.g.v))))) {
+        Res::Ok(Ok((e, Res::Ok(a)))) => (e, a),
+        _ => (false, false),
+    };
+    let term = format!("CStripS {} {} {} {} {} {} {}", sp_head(it), subset & 6, nlist(&elems), blist8(&extra), reader.pos, b(eq), b(ans));
+    out.stat(&format!("c19.strip_sparse.{}", subset & 6));
+    out.case("strip_sparse", term, format!("{{\"len\":{},\"multi\":{},\"values\":{:?},\"subset\":{},\"eq\":{},\"answers\":{}}}",
+        it.len, it.multi, &it.vals[..std::cmp::min(it.vals.len(), 40)], subset & 6, eq, ans), !it.vals.is_empty());
+}
+
 fn run_c19(rng: &mut Rng, out: &mut Out, thorough: bool) {
     let lens: Vec<usize> = if thorough {
         vec![0, 1, 2, 63, 64, 65, 200, 511, 512, 513, 1024, 2000, 4095, 4096, 4097, 8192, 12000]
@@ -2538,6 +2571,15 @@ fn run_c19(rng: &mut Rng, out: &mut Out, thorough: bool) {
         for subset in [0u64, 0, rng.below(8), 7] {
             let matrix = rng.below(3) != 0;
             emit_strip(out, rng, &vals, matrix, subset);
+        }
+    }
+    // sparse vectors from files whose high part carries no (or only one of the two) select structures
+    for it in sparse_items(rng, thorough).iter() {
+        for subset in [0u64, 2, 4] {
+            if subset != 0 && !thorough && rng.chance(1, 2) {
+                continue;
+            }
+            emit_strip_sparse(out, rng, it, subset);
         }
     }
     // absent_option writes exactly one zero element
